@@ -257,7 +257,11 @@ type c05Node struct {
 }
 
 func (w *c05World) layout() []c05Node {
-	r := w.c.Rng
+	return c05Layout(w.c.Rng.Intn(6), w.c.Rng.Intn(4))
+}
+
+// c05Layout: the fixed part of the initial tree plus variant v1 of name d and variant v2 of the deep entries.
+func c05Layout(v1, v2 int) []c05Node {
 	ns := []c05Node{
 		{"a", "dir", "", 0o755, ""},
 		{"a/b", "dir", "", 0o755, ""},
@@ -270,7 +274,7 @@ func (w *c05World) layout() []c05Node {
 		{"c", "symlink", "", 0, "a/b"},
 		{"s", "file", "sentinel", 0o644, ""},
 	}
-	switch r.Intn(6) {
+	switch v1 {
 	case 1:
 		ns = append(ns, c05Node{"d", "dir", "", 0o755, ""})
 	case 2:
@@ -282,7 +286,7 @@ func (w *c05World) layout() []c05Node {
 	case 5:
 		ns = append(ns, c05Node{"d", "symlink", "", 0, "$R/a"})
 	}
-	switch r.Intn(4) {
+	switch v2 {
 	case 1:
 		ns = append(ns, c05Node{"a/b/d", "file", "dd", 0o644, ""})
 	case 2:
@@ -398,6 +402,9 @@ func (w *c05World) genPath(mut bool) string {
 	r := w.c.Rng
 	rel := w.plain()
 	x := r.Intn(100)
+	if w.wd && x >= 4 && x < 17 && r.Intn(3) != 0 {
+		return rel // keep most wd sequences clear of the (known) lexical cleaning of relative paths
+	}
 	switch {
 	case x < 4:
 		return "./" + rel
@@ -537,6 +544,53 @@ func (w *c05World) genOp(step int) *c05Op {
 		}
 	}
 	return op
+}
+
+func (op *c05Op) prePath() string {
+	if op.name == "symlink" {
+		return op.p2
+	}
+	return op.p1
+}
+
+type c05Dir struct {
+	v1, v2 int
+	ops    []*c05Op
+}
+
+// c05Directed: short fixed sequences run first in every configuration, so that every divergence seen so far (and the
+// plain use of every operation) is exercised whatever the seed. Sequence numbers d000...
+func c05Directed() []c05Dir {
+	o1 := func(name, p1 string) *c05Op { return &c05Op{name: name, p1: p1} }
+	o2 := func(name, p1, p2 string) *c05Op { return &c05Op{name: name, p1: p1, p2: p2} }
+	sym := func(target, link string) *c05Op { return &c05Op{name: "symlink", target: target, p2: link} }
+	return []c05Dir{
+		{0, 0, []*c05Op{o1("mkdir", "d"), {name: "create", p1: "d/a", data: []byte("one")}, o2("rename", "d/a", "d/b"), o2("link", "d/b", "d/c"),
+			o2("posixrename", "d/c", "d/a"), {name: "chmod", p1: "d/a", mode: 0o600}, {name: "chtimes", p1: "d/a", at: c05T0 + 7777, mt: c05T0 + 8888},
+			{name: "truncate", p1: "d/b", size: 100}, sym("$R/a", "d/d"), o1("readlink", "d/d"), o1("stat", "d/d"), o1("lstat", "d/d"), o1("readdir", "d"),
+			o1("glob", "d/*"), o1("walk", "d"), o1("realpath", "d/../d/a"), o1("mkdirall", "d/c/b/a"), {name: "openfile", p1: "d/c/b/a/c", flags: os.O_WRONLY | os.O_CREATE, data: []byte("of")},
+			o1("remove", "d/d"), o1("rmdir", "d/c/b/a"), o1("removeall", "d"), o1("removeall", "d")}},
+		{0, 0, []*c05Op{o2("link", "a", "d")}},
+		{0, 0, []*c05Op{o1("removeall", "c")}},
+		{0, 0, []*c05Op{o1("removeall", "a/c")}},
+		{3, 0, []*c05Op{o1("removeall", "d")}},
+		{0, 0, []*c05Op{o1("rmdir", "b")}},
+		{0, 0, []*c05Op{o1("glob", "./a")}},
+		{0, 0, []*c05Op{o1("glob", "a/")}},
+		{0, 0, []*c05Op{o1("glob", "d/[")}},
+		{0, 0, []*c05Op{o1("removeall", "b/")}},
+		{0, 0, []*c05Op{o1("removeall", "a/.")}},
+		{0, 0, []*c05Op{o1("remove", "a/c/")}},
+		{0, 0, []*c05Op{o1("stat", "a"), o1("statvfs", "a")}},
+		{0, 0, []*c05Op{sym("c", "a/x"), o1("readlink", "a/x")}},
+		{0, 0, []*c05Op{sym("", "d")}},
+		{0, 0, []*c05Op{o1("lstat", "c/")}},
+		{0, 0, []*c05Op{o1("stat", "")}},
+		{0, 0, []*c05Op{o1("stat", "b/..")}},
+		{0, 0, []*c05Op{o1("stat", "b/.")}},
+		{0, 0, []*c05Op{o2("posixrename", "a", "./a")}},
+		{0, 0, []*c05Op{{name: "create", p1: "d", data: []byte("new")}}},
+	}
 }
 
 func c05Show(s string) string {
@@ -852,12 +906,13 @@ func (w *c05World) classify(op *c05Op, a, b c05Res, pre1 string, kind string, ki
 		}
 	}
 	onlyTarget := kind == "tree" && len(kinds) > 0
+	sameName := w.wd && (op.name == "rename" || op.name == "posixrename") && op.p1 != op.p2 && path.Clean(op.p1) == path.Clean(op.p2)
 	for k := range kinds {
 		if k != "target" {
 			onlyTarget = false
 		}
 	}
-	onlyPerm := kind == "tree" && len(kinds) > 0
+	onlyPerm := kind != "category" && len(kinds) > 0
 	for k := range kinds {
 		if k != "perm" {
 			onlyPerm = false
@@ -886,17 +941,22 @@ func (w *c05World) classify(op *c05Op, a, b c05Res, pre1 string, kind string, ki
 		if c05SortedJoin(ca) == c05SortedJoin(cb) {
 			return "glob-clean"
 		}
-		if sens != "" {
-			return "workdir-clean:" + sens
-		}
 		if strings.HasSuffix(op.p1, "/") && !strings.ContainsAny(op.p1, "*?[") {
 			return "glob-trailing-slash"
+		}
+		if sens != "" {
+			return "workdir-clean:" + sens
 		}
 		return "glob-value"
 	case op.name == "glob" && kind == "category" && sens == "":
 		return "glob-badpattern"
 	case sens != "":
 		return "workdir-clean:" + sens
+	case sameName && kind == "category":
+		// os.Rename refuses (EEXIST) a directory renamed onto its textually identical name, but not onto another spelling of it
+		return "workdir-clean:same-name"
+	case op.name == "remove" && kind == "category" && a.cat != "ok" && b.cat != "ok" && len(kinds) == 0:
+		return "remove-error-choice"
 	case op.name == "removeall" && strings.HasSuffix(op.p1, "/") && pre1 == "file":
 		return "removeall-trailing-slash"
 	case op.name == "removeall" && (op.p1 == "." || strings.HasSuffix(op.p1, "/.")):
@@ -914,6 +974,7 @@ func runC05(c *Ctx) {
 		"ReadLink Stat Lstat Chmod Chtimes Truncate ReadDir Glob Walk RealPath StatVFS over names a b c d (depth<=3, decorated with ./ x/.. trailing / and the empty path) " +
 		"applied through Client+os-backed Server to tree A and through os/filepath/syscall to an identical tree B; cfg abs = absolute paths, wd = server working directory + relative paths, " +
 		"abs-umask0 = abs with umask 0; compared after every step: outcome category, returned values, full tree snapshots; a sequence ends at its first failing step; " +
+		"each configuration starts with a few fixed directed sequences (seq d000..) that exercise every operation and every divergence seen so far; " +
 		"non-trivial = the step fails on at least one side or changes a tree")
 	oldMask := syscall.Umask(0o022)
 	defer syscall.Umask(oldMask)
@@ -925,6 +986,11 @@ func runC05(c *Ctx) {
 	defer os.RemoveAll(base)
 	if r, err := filepath.EvalSymlinks(base); err == nil {
 		base = r
+	}
+	// statvfs ignores the server working directory, so in cfg wd its relative argument is resolved against the process
+	// working directory: make that a place where none of the names exists, whatever directory the harness is started in
+	if cwd, err := os.Getwd(); err == nil && os.Chdir(base) == nil {
+		defer os.Chdir(cwd)
 	}
 	nseq, nsteps := 150, 12
 	if c.Thorough() {
@@ -990,8 +1056,24 @@ func (w *c05World) run(nseq, nsteps int, prefixes map[string]int, examples map[s
 		return false
 	}
 	defer func() { w.p.Close() }()
+	for di, d := range c05Directed() {
+		if !w.runSeq(0xd000+di, c05Layout(d.v1, d.v2), len(d.ops), func(i int) *c05Op { return d.ops[i] }, prefixes, examples) {
+			return false
+		}
+	}
 	for s := 0; s < nseq; s++ {
-		if err := w.build(w.layout()); err != nil {
+		if !w.runSeq(s, w.layout(), nsteps, w.genOp, prefixes, examples) {
+			return false
+		}
+	}
+	return true
+}
+
+// runSeq runs one sequence from freshly built twin trees; it returns false when the family must stop.
+func (w *c05World) runSeq(s int, nodes []c05Node, nsteps int, next func(int) *c05Op, prefixes map[string]int, examples map[string]string) bool {
+	c := w.c
+	{
+		if err := w.build(nodes); err != nil {
 			c.Diag("build: %v", w.clean(err.Error()))
 			return false
 		}
@@ -1003,12 +1085,12 @@ func (w *c05World) run(nseq, nsteps int, prefixes map[string]int, examples map[s
 		}
 		keyA, keyB := c05SnapKey(w, prevA), c05SnapKey(w, prevB)
 		for i := 0; i < nsteps; i++ {
-			op := w.genOp(i)
+			op := next(i)
 			pre1 := "none"
-			if op.p1 != "" {
-				t := strings.TrimRight(op.p1, "/")
+			if pp := op.prePath(); pp != "" {
+				t := strings.TrimRight(pp, "/")
 				if t == "" {
-					t = op.p1
+					t = pp
 				}
 				pre1 = c05PreType(w.pb(t))
 			}
@@ -1061,8 +1143,9 @@ func (w *c05World) run(nseq, nsteps int, prefixes map[string]int, examples map[s
 				kind = "value"
 			}
 			treeDiff, tk := w.diffSnap(snapA, snapB)
+			kinds = tk
 			if kind == "" && treeDiff != "" {
-				kind, kinds = "tree", tk
+				kind = "tree"
 			}
 			if kind == "" {
 				c.Oracle(n, true, "")
